@@ -93,6 +93,7 @@ struct Case {
     carrier: u32,
     w: usize,
     v: i128,
+    any: bool, // value need not be representable: only totality and the frame condition are demanded
 }
 
 fn repr_range(kind: &str, w: usize) -> (i128, i128) {
@@ -110,10 +111,17 @@ fn cases(r: &mut StdRng, exhaustive_w: usize, random_per: usize) -> Vec<Case> {
             let minw = if kind == "sm" { 2 } else { 1 };
             for w in minw..=carrier as usize {
                 let (lo, hi) = repr_range(kind, w);
+                // values outside the representable range, up to the ends of the carrier type
+                let (cmin, cmax): (i128, i128) = if kind == "u" { (0, (1i128 << carrier) - 1) } else { (-(1i128 << (carrier - 1)), (1i128 << (carrier - 1)) - 1) };
+                for v in [cmin, cmin + 1, cmax, cmax - 1, hi + 1, lo - 1, hi + 2, -(1i128 << (w - 1)), (cmin / 2), (cmax / 2) + 1] {
+                    if v >= cmin && v <= cmax && (v < lo || v > hi) {
+                        out.push(Case { kind, carrier, w, v, any: true });
+                    }
+                }
                 if w <= exhaustive_w {
                     let mut v = lo;
                     while v <= hi {
-                        out.push(Case { kind, carrier, w, v });
+                        out.push(Case { kind, carrier, w, v, any: false });
                         v += 1;
                     }
                 } else {
@@ -127,7 +135,7 @@ fn cases(r: &mut StdRng, exhaustive_w: usize, random_per: usize) -> Vec<Case> {
                     }
                     for v in vs {
                         if v >= lo && v <= hi {
-                            out.push(Case { kind, carrier, w, v });
+                            out.push(Case { kind, carrier, w, v, any: false });
                         }
                     }
                 }
@@ -158,6 +166,7 @@ pub fn rec_bits(a: &Args, out: &mut Out) {
         let start = r.gen_range(0..16.min(blen * 8));
         let buf0 = buf.clone();
         let mut done: Vec<Case> = vec![];
+        let mut done_any: Option<Case> = None;
         out.emit(json!({"ev": "AsmInit", "buf": bytes_json(&buf), "off": start}));
         {
             let mut asm = Assembler::new(&mut buf, start);
@@ -173,9 +182,21 @@ pub fn rec_bits(a: &Args, out: &mut Out) {
                     Ok(b) => J::from(*b),
                     Err(p) => J::from(format!("panic:{}", p)),
                 };
-                out.emit(json!({"ev": "Put", "kind": c.kind, "carrier": c.carrier, "w": c.w,
-                    "vbits": bits_of(c.v, c.carrier), "ok": ok, "off_after": asm.offset()}));
+                if c.any {
+                    // asm still borrows buf: the buffer content is logged by the AsmEnd of this session and
+                    // by an extra checkpoint right after this put
+                    out.emit(json!({"ev": "PutAny", "kind": c.kind, "carrier": c.carrier, "w": c.w,
+                        "vbits": bits_of(c.v, c.carrier), "ok": ok, "off_after": asm.offset()}));
+                } else {
+                    out.emit(json!({"ev": "Put", "kind": c.kind, "carrier": c.carrier, "w": c.w,
+                        "vbits": bits_of(c.v, c.carrier), "ok": ok, "off_after": asm.offset()}));
+                }
                 steps += 1;
+                if c.any {
+                    // an unrepresentable value ends the session (the buffer is compared at AsmEnd)
+                    if res == Ok(true) { idx += 1; done_any = Some(c.clone()); } else if fits { idx += 1; }
+                    break;
+                }
                 if res == Ok(true) {
                     done.push(c);
                     idx += 1;
@@ -186,13 +207,17 @@ pub fn rec_bits(a: &Args, out: &mut Out) {
                 }
             }
         }
+        let _ = &done_any;
         out.emit(json!({"ev": "AsmEnd", "buf": bytes_json(&buf)}));
         // read everything back (and past the end) from the buffer just written
         out.emit(json!({"ev": "ParInit", "buf": bytes_json(&buf), "off": start}));
         let mut par = Parser::new(&buf, start);
         let mut reads: Vec<Case> = done.clone();
+        if let Some(c) = &done_any {
+            reads.push(Case { kind: "u", carrier: 64, w: c.w, v: 0, any: false });
+        }
         // one more read that may overflow
-        reads.push(Case { kind: "u", carrier: 16, w: *pick(&mut r, &[1usize, 7, 9, 16]), v: 0 });
+        reads.push(Case { kind: "u", carrier: 16, w: *pick(&mut r, &[1usize, 7, 9, 16]), v: 0, any: false });
         for c in reads {
             let res = parse_dyn(&mut par, c.kind, c.carrier, c.w);
             let (ok, vb) = match &res {
